@@ -90,6 +90,9 @@ def run(ck: Check):
     for c, m, i in zip(cases, model, impl):
         if m != i:
             ck.mismatch(c.split()[0], c, m, i)
+    # the same object loading a second file (a library user, a second pass) splits it like a fresh object
+    from props.c06 import reload_same_object
+    reload_same_object(ck)
     return ck.finish(level="proof", rule=RULE, extra={"exhaustive": True, "files": len(files)})
 
 
